@@ -269,3 +269,63 @@ package scan
 //@   entry row fail:  [call GenerateRequests(rg.delegate, ctx, r) as (rq, e)] when e != nil && ret0 == nil && ret1 == e -> exit
 //@   entry row start: [call GenerateRequests(rg.delegate, ctx, r) as (rq, e) ; go (*liveRequestGenerator).GenerateRequests$1(bind_o, bind_c, bind_rq2, bind_g2, bind_r2)]
 //@                       when e == nil && ret1 == nil && ret0 == o && rq2 == rq && c == ctx && g2 == rg && r2 == r -> exit
+
+// ---------------------------------------------------------------------------------------------
+// C13: bad target-list entries. Per line of a target file: the line's OWN fields decide (lineip/lineport are
+// the values of the "ip"/"port" members of this line, ""/0 when the member is absent); a bad line gives exactly
+// one error request with its cause and never a probe request; a good line exactly one request for its own
+// address and port.
+//@ spec hasip(line int) bool
+//@ spec hasport(line int) bool
+//@ spec jsonip(line int) int
+//@ spec jsonport(line int) int
+//@ spec lineip(line int) int = ite(hasip(line), jsonip(line), "")
+//@ spec lineport(line int) int = ite(hasport(line), jsonport(line), 0)
+// generated easyjson decoder: members that are present are assigned, absent members leave the field untouched
+//@ func (*IPPort).UnmarshalJSON
+//@   trusted generated easyjson decoder (request_easyjson.go): assigns exactly the members present in the input
+//@   modifies v.IP, v.Port
+//@   ensures ret == nil ==> v.IP == ite(hasip(data), jsonip(data), old(v.IP)) && v.Port == ite(hasport(data), jsonport(data), old(v.Port))
+
+//@ func (*fileIPPortGenerator).GenerateRequests$1
+//@   props C13 C01 C12
+//@   observe (*bufio.Scanner).Scan, (*bufio.Scanner).Bytes, (*bufio.Scanner).Err, UnmarshalJSON, net.ParseIP, Close
+//@   loop 0 row eof:     [call Scan(_) as (more) ; call Err(_) as (e) ; call Close(_) ; close out] when !more && e == nil -> exit
+//@   loop 0 row eof_err: [call Scan(_) as (more) ; call Err(_) as (e) ; send? out bind_x ; call Close(_) ; close out] when !more && e != nil && x.Err == e -> exit
+//@   loop 0 row badjson: [call Scan(_) as (more) ; call Bytes(_) as (b) ; call UnmarshalJSON(_, b) as (je) ; send? out bind_x ; call Close(_) ; close out]
+//@                          when more && je != nil && x.Err == ErrJSON -> exit
+//@   loop 0 row badip:   [call Scan(_) as (more) ; call Bytes(_) as (b) ; call UnmarshalJSON(_, b) as (je) ; call net.ParseIP(bind_s) as (ip) ; send? out bind_x]
+//@                          when more && je == nil && s == lineip(b) && ip == nil && x.Err == ErrIP -> continue
+//@   loop 0 row badport: [call Scan(_) as (more) ; call Bytes(_) as (b) ; call UnmarshalJSON(_, b) as (je) ; call net.ParseIP(bind_s) as (ip) ; send? out bind_x]
+//@                          when more && je == nil && s == lineip(b) && ip != nil && !(1 <= lineport(b) && lineport(b) <= 65535) && x.Err == ErrPort -> continue
+//@   loop 0 row request: [call Scan(_) as (more) ; call Bytes(_) as (b) ; call UnmarshalJSON(_, b) as (je) ; call net.ParseIP(bind_s) as (ip) ; send? out bind_x]
+//@                          when more && je == nil && s == lineip(b) && ip != nil && 1 <= lineport(b) && lineport(b) <= 65535
+//@                            && x.Err == nil && x.DstIP == ip && x.DstPort == lineport(b) && x.SrcIP == r.SrcIP && x.SrcMAC == r.SrcMAC -> continue
+
+// address file: same per-line rule; any bad line ends the stream after its one error
+//@ func (*fileIPGenerator).IPs$1
+//@   props C13 C01 C12
+//@   observe (*bufio.Scanner).Scan, (*bufio.Scanner).Bytes, (*bufio.Scanner).Err, UnmarshalJSON, net.ParseIP, Close
+//@   loop 0 row eof:     [call Scan(_) as (more) ; call Err(_) as (e) ; call Close(_) ; close out] when !more && e == nil -> exit
+//@   loop 0 row eof_err: [call Scan(_) as (more) ; call Err(_) as (e) ; send? out bind_x ; call Close(_) ; close out]
+//@                          when !more && e != nil && isptr(x, ipError) && asptr(x, ipError).error == e -> exit
+//@   loop 0 row badjson: [call Scan(_) as (more) ; call Bytes(_) as (b) ; call UnmarshalJSON(_, b) as (je) ; send? out bind_x ; call Close(_) ; close out]
+//@                          when more && je != nil && isptr(x, ipError) && asptr(x, ipError).error == ErrJSON -> exit
+//@   loop 0 row badip:   [call Scan(_) as (more) ; call Bytes(_) as (b) ; call UnmarshalJSON(_, b) as (je) ; call net.ParseIP(bind_s) as (ip) ; send? out bind_x ; call Close(_) ; close out]
+//@                          when more && je == nil && s == lineip(b) && ip == nil && isptr(x, ipError) && asptr(x, ipError).error == ErrIP -> exit
+//@   loop 0 row address: [call Scan(_) as (more) ; call Bytes(_) as (b) ; call UnmarshalJSON(_, b) as (je) ; call net.ParseIP(bind_s) as (ip) ; send? out bind_x]
+//@                          when more && je == nil && s == lineip(b) && ip != nil && istype(x, WrapIP) && astype(x, WrapIP) == ip -> continue
+
+// exclusion filter: a failed request passes through unchanged with its original cause (no lookup); a lookup
+// error becomes the request's error; an excluded address is dropped; everything else passes unchanged.
+// emitted <=> not excluded (C02).
+//@ func (*filterIPRequestGenerator).GenerateRequests$1
+//@   props C13 C02 C01 C12
+//@   observe Contains
+//@   loop 0 row cancel:   [ctxdone ; close out] -> exit
+//@   loop 0 row closed:   [recv requests as (rq, false) ; close out] -> exit
+//@   loop 0 row errpass:  [recv requests as (rq, true) ; send? out rq] when pre(rq.Err) != nil && rq.Err == pre(rq.Err) && rq.DstIP == pre(rq.DstIP) && rq.DstPort == pre(rq.DstPort) -> continue
+//@   loop 0 row conterr:  [recv requests as (rq, true) ; call Contains(rg.excludeIPs, pre(rq.DstIP)) as (c, e) ; send? out rq] when pre(rq.Err) == nil && e != nil && rq.Err == e -> continue
+//@   loop 0 row excluded: [recv requests as (rq, true) ; call Contains(rg.excludeIPs, pre(rq.DstIP)) as (c, e)] when pre(rq.Err) == nil && e == nil && c -> continue
+//@   loop 0 row pass:     [recv requests as (rq, true) ; call Contains(rg.excludeIPs, pre(rq.DstIP)) as (c, e) ; send? out rq]
+//@                           when pre(rq.Err) == nil && e == nil && !c && rq.Err == nil && rq.DstIP == pre(rq.DstIP) && rq.DstPort == pre(rq.DstPort) -> continue
